@@ -400,6 +400,174 @@ def c14(tier, seed):
                      ("gen_market2.ops_on_two_assets", "gen_market2_modify_toggle.ops_on_two_assets", "gen_market3.ops_on_two_assets"))
 
 
+def c09(tier, seed):
+    import random, time
+    ck = Check("C09", tier, seed)
+    q = ck.quick
+    core.build_harness()
+    d = os.path.join(core.WORK, "traces", "C09")
+    os.makedirs(d, exist_ok=True)
+    rnd = random.Random(seed)
+    comps = ["Mixed", "Nested", "TwoNoise", "OnlyRandom", "MMixed", "MNested"]
+    configs = []
+    for i in range(48 if q else 240):
+        configs.append({"seed": rnd.randrange(1, 1 << 40), "steps": rnd.choice([1, 2, 5, 17, 40, 60] if q else [1, 3, 10, 40, 120, 200]),
+                        "step_size": rnd.choice([1, 7, 1000, 100000]), "tick": rnd.choice([1, 2, 5, 10]), "comp": comps[i % len(comps)]})
+    cf = os.path.join(d, "configs.json")
+    json.dump(configs, open(cf, "w"))
+    t0 = time.time()
+    outs = {}
+    procs = []
+    for tag, prog, shift in (("A", "false", 0), ("B", "false", 0), ("C", "true", 0), ("D", "false", 7919)):
+        outs[tag] = os.path.join(d, tag + ".ndjson")
+        # separate OS processes (own address space, own hash seeds, own start time)
+        procs.append((tag, subprocess.Popen([os.path.join(core.BIN, "sim_run"), "--configs", cf, "--out", outs[tag], "--progress", prog,
+                                             "--seed-shift", str(shift)], stdout=subprocess.DEVNULL, stderr=subprocess.PIPE, text=True)))
+    for tag, p in procs:
+        _, err = p.communicate()
+        if p.returncode != 0:
+            ck.violation("runs", "simulation process %s aborted: %s" % (tag, err[-600:]), {"kind": "panic", "configs": configs, "process": tag})
+    if not ck.violations:
+        tl, text = core.tlc_check("C09_eq", "SimEq", {}, ["SPECIFICATION Spec", "INVARIANT Verdict"], workers=1, timeout=900,
+                                  env_extra={"TRACE": outs["A"], "TRACE2": outs["B"], "TRACE3": outs["C"], "TRACE4": outs["D"],
+                                             "JAVA_TOOL_OPTIONS": "-Xss1g -Xmx8g"})
+        rej = core.tagged_lines(text, "TRACE-REJECT")
+        acc = core.tagged_lines(text, "ACCEPTED")
+        if rej:
+            ck.violation("runs", "simulation outputs: %s (first differing line A/B %s, A/C %s)" % (rej[0].get("why"), rej[0].get("at_AB"), rej[0].get("at_AC")),
+                         {"kind": "simeq", "reject": rej[0], "configs": configs})
+        elif not acc:
+            raise ToolError("C09: TLC failed comparing simulation outputs:\n" + text[-2500:])
+        nlines = acc[0] if acc else 0
+        sub = core.tagged_lines(text, "SUBSTANTIAL")
+        ck.features["configurations_with_20_or_more_orders"] = sub[0] if sub else 0
+        if sub and sub[0] < len(configs) // 2:
+            raise ToolError("C09: vacuous - fewer than half of the configurations produced a substantial run")
+        ck.states += tl["distinct"]
+        ck.transitions += nlines if isinstance(nlines, int) else 0
+        ck.features["output_lines_compared"] = nlines if isinstance(nlines, int) else 0
+    ck.traces += 4 * len(configs)
+    ck.features["configurations"] = len(configs)
+    ck.samples.append({"stage": "runs", "kind": "one configuration (run as 4 separate OS processes)", "case": configs[0]})
+    ck.stages.append({"stage": "runs", "kind": "4 OS processes x %d configurations through sim_runner / market_sim_runner with derive-macro agent sets; TLC compares outputs line by line" % len(configs),
+                      "configurations": len(configs), "wall_s": round(time.time() - t0, 1)})
+    ck.assumptions.append("a nondeterminism source that happens to be stable across the repeated processes on this machine is not seen (DESIGN.md section 8)")
+    log("[runs] %d configurations x 4 processes, %s output lines compared by TLC" % (len(configs), ck.features.get("output_lines_compared")))
+    return ck.finish("model_checking", "TLC compares complete simulation outputs (orders, trades, recorded level-2 history, per-step volume) of repeated runs in "
+                     "separate OS processes, with and without the progress bar, line by line, and requires shifted seeds to give different runs; the "
+                     "behaviours themselves are constrained by the specification through C08 (steps) and C16 (agents).",
+                     "cases = (configuration, process) runs; distinct non-trivial = configurations", ("configurations",))
+
+
+def c15(tier, seed):
+    import math, time
+    ck = Check("C15", tier, seed)
+    q = ck.quick
+    core.build_harness()
+    d = os.path.join(core.WORK, "traces", "C15")
+    os.makedirs(d, exist_ok=True)
+    out = os.path.join(d, "hist.ndjson")
+    t0 = time.time()
+    r = subprocess.run([os.path.join(core.BIN, "shuffle_stats"), "--out", out, "--seed", str(seed), "--scale", "1" if q else "6"],
+                       text=True, capture_output=True)
+    if r.returncode != 0:
+        # a panic while stepping the environment is a failure of the code under test
+        ck.violation("histograms", "environment step aborted while sampling schedules: " + r.stderr[-500:], {"kind": "panic", "seed": seed})
+        return ck.finish("other", "see DESIGN.md 6 C15", "n/a")
+    summ = json.loads(r.stdout.strip().splitlines()[-1])
+    K = summ["cells"]
+    L = math.ceil(math.log(2 * K / 1e-9))
+    tl, text = core.tlc_check("C15_stat", "Shuffle", {"NMax": 6, "L": L},
+                              ["SPECIFICATION Spec", "INVARIANT StatOK", "INVARIANT BijectionOK"], workers=1, timeout=900,
+                              env_extra={"TRACE": out, "JAVA_TOOL_OPTIONS": "-Xss1g -Xmx4g"})
+    rej = core.tagged_lines(text, "TRACE-REJECT")
+    acc = core.tagged_lines(text, "ACCEPTED")
+    if "BijectionOK is violated" in text:
+        raise ToolError("C15: the Fisher-Yates model is not a bijection (specification error)")
+    if rej:
+        ck.violation("histograms", "recorded schedule statistics outside the exact concentration bound: %s" % json.dumps(rej[0])[:400],
+                     {"kind": "histogram", "reject": rej[0], "seed": seed, "tables_file": out, "L": L, "cells": K})
+    elif not acc:
+        raise ToolError("C15: TLC failed on the histogram predicate:\n" + text[-2500:])
+    ck.states += tl["distinct"] + sum(math.factorial(n) for n in range(1, 7))
+    ck.transitions += summ["steps"]
+    ck.traces += summ["steps"]
+    ck.features["seeded_steps_sampled"] = summ["steps"]
+    ck.features["tables"] = summ["tables"]
+    ck.features["cells_in_union_bound"] = K
+    first = json.loads(open(out).readline())
+    ck.samples.append({"stage": "histograms", "kind": "one of the recorded tables (all 2-permutations)", "case": first})
+    ck.stages.append({"stage": "histograms", "kind": "TLC bijection (n<=6) + Bernstein/union-bound predicate evaluated by TLC on histograms recorded from real steps",
+                      "tables": summ["tables"], "cells": K, "steps": summ["steps"], "L_ge_ln_2K_over_delta": L, "delta": 1e-9,
+                      "wall_s": round(time.time() - t0, 1)})
+    ck.assumptions += ["the seeded generator (Xoroshiro128** via seed_from_u64) and rand's range sampling are uniform",
+                       "false-alarm probability of the statistical predicate < 1e-9 per run (Bernstein + union bound over all cells)"]
+    log("[histograms] %d tables, %d cells, %d seeded steps; L = %d; %s" % (summ["tables"], K, summ["steps"], L, "accepted" if acc and not rej else "REJECTED"))
+    return ck.finish("other", "C15 is a statement about a distribution. TLC (i) proves by enumeration that the draw-driven Fisher-Yates model is a bijection "
+                     "between draw vectors and permutations for n <= 6 (so the exact expected histogram is uniform), (ii) evaluates the exact Bernstein + "
+                     "union-bound acceptance predicate on histograms recorded from >= 2*10^5 seeded real steps per batch size 2..6 (all n! permutations) and on "
+                     "position-by-item / pairwise tables up to size 64, single- and multi-asset, mixed instruction kinds, and (iii) checks that the index "
+                     "permutation depends only on generator state and batch size. The sampling is a statistical test, not a proof.",
+                     "cases = seeded real steps; distinct non-trivial = table cells entering the union bound", ("cells_in_union_bound",))
+
+
+def c20(tier, seed):
+    import time, shutil
+    from . import shapes
+    ck = Check("C20", tier, seed)
+    t0 = time.time()
+    tl, text = core.tlc_check("C20_shapes", "AgentSet", {}, ["INIT GInit", "NEXT GNext", "INVARIANT EmitShape", "INVARIANT SizeOK"], workers=1, timeout=300)
+    if not tl["ok"]:
+        raise ToolError("C20: shape enumeration failed:\n" + text[-2000:])
+    sh = core.tagged_lines(text, "SHAPE")
+    hs = os.path.join(core.VERIF, "harness_shapes")
+    shapes.generate(sh, os.path.join(hs, "src", "main.rs"))
+    if not os.path.exists(os.path.join(hs, "Cargo.lock")):
+        shutil.copy("/repo/Cargo.lock", os.path.join(hs, "Cargo.lock"))
+    r = subprocess.run(["cargo", "build", "--offline"], cwd=hs, text=True, capture_output=True, env=dict(os.environ, CARGO_NET_OFFLINE="true"))
+    if r.returncode != 0:
+        # the generated program is valid Rust for a correct macro: if the derive output does not compile, the macro is broken
+        if "derive" in r.stderr and ("AgentSet" in r.stderr):
+            ck.violation("derive", "a struct deriving AgentSet/MarketAgentSet does not compile: " + r.stderr[-800:], {"kind": "compile", "stderr": r.stderr[-3000:]})
+            return ck.finish("model_checking", LEVEL_TEXT, "n/a")
+        raise ToolError("C20: generated program does not build:\n" + r.stderr[-3000:])
+    o = subprocess.run([os.path.join(core.BIN, "bourse-verif-shapes")], text=True, capture_output=True)
+    d = os.path.join(core.WORK, "traces", "C20")
+    os.makedirs(d, exist_ok=True)
+    out = os.path.join(d, "shapes.ndjson")
+    open(out, "w").write(o.stdout)
+    if o.returncode != 0:
+        ck.violation("derive", "derived agent set aborted: " + o.stderr[-600:], {"kind": "panic", "stderr": o.stderr[-2000:]})
+    else:
+        tl2, text2 = core.tlc_check("C20_validate", "AgentSet", {}, ["INIT VInit", "NEXT VNext", "INVARIANT Verdict"], workers=1, timeout=300,
+                                    env_extra={"TRACE": out, "JAVA_TOOL_OPTIONS": "-Xss1g"})
+        rej = core.tagged_lines(text2, "TRACE-REJECT")
+        acc = core.tagged_lines(text2, "ACCEPTED")
+        if rej:
+            ck.violation("derive", "derived agent set does not behave as Update(shape): %s" % json.dumps(rej[0])[:500], {"kind": "derive", "reject": rej[0]})
+        elif not acc:
+            raise ToolError("C20: TLC failed validating derive traces:\n" + text2[-2500:])
+        ck.states += tl2["distinct"]
+    n = len(o.stdout.splitlines())
+    ck.states += tl["distinct"]
+    ck.transitions += tl["generated"]
+    ck.traces += n
+    ck.features["shapes"] = len(sh)
+    ck.features["traces"] = n
+    ck.features["shapes_with_nested_sets"] = sum(1 for x in sh if any(f["t"] == "S" for f in x["shape"]["f"]))
+    ck.features["max_leaves"] = max(x["n"] for x in sh)
+    if o.stdout:
+        ck.samples.append({"stage": "derive", "kind": "trace of one derived set (3 update calls; [leaf, draw, order id])", "case": json.loads(o.stdout.splitlines()[len(sh) // 2])})
+    ck.stages.append({"stage": "derive", "kind": "TLC-enumerated struct shapes -> generated #[derive] structs compiled against the working tree's macro crate -> probe traces validated by TLC",
+                      "shapes": len(sh), "traces": n, "wall_s": round(time.time() - t0, 1)})
+    log("[derive] %d shapes (max %d leaves, %d with nested sets), %d traces validated by TLC" % (len(sh), ck.features["max_leaves"], ck.features["shapes_with_nested_sets"], n))
+    return ck.finish("model_checking", "TLC enumerates the struct shapes (AgentSet.tla: trees with 1..8 leaves, two leaf types, repeated types, nested derived sets); "
+                     "for each shape a struct deriving AgentSet and one deriving MarketAgentSet is generated and compiled against the working tree's macro crate; probe "
+                     "agents (one draw from a counting generator, one order tagged with the leaf id) reveal call order, generator sharing and environment sharing; TLC "
+                     "validates every trace against Update(shape) and against the hand-written call sequence.",
+                     "programs = generated structs; non-trivial = shapes containing nested derived sets", ("shapes_with_nested_sets",))
+
+
 # ---------------------------------------------------------------------------------------------
 # agents
 AGENT_RULE = ("runs: seeded agent configurations (kind x single/multi asset x tick 1..10 x probabilities {0, 0.3, 1, 1.5} x sigma {1, 10} x "
@@ -435,7 +603,7 @@ def c17(tier, seed):
                      ("momentum_saturated.updates_with_instructions", "momentum_mirror.updates_with_instructions"))
 
 
-CHECKS = {"C01": c01, "C02": c02, "C03": c03, "C04": c04, "C05": c05, "C06": c06, "C07": c07, "C08": c08, "C10": c10, "C11": c11, "C14": c14, "C16": c16, "C17": c17, "C12": c12, "C13": c13}
+CHECKS = {"C01": c01, "C02": c02, "C03": c03, "C04": c04, "C05": c05, "C06": c06, "C07": c07, "C08": c08, "C09": c09, "C10": c10, "C11": c11, "C14": c14, "C15": c15, "C16": c16, "C17": c17, "C20": c20, "C12": c12, "C13": c13}
 
 
 def replay(prop, path):
